@@ -74,15 +74,59 @@ def rule_process(ctx):
             key="C33.1:validate-before-apply")
 
 
+def rule_validate_state(ctx):
+    """C33.3 — an operation that is concurrent to the local heads is validated against the state *rebuilt* at its
+    declared dependencies: in GroupCrdt::validate, on the `heads() != dependencies` edge no Ok return is reachable
+    without passing the resolver run on the graph pruned to the operation's predecessors (Resolver::process), and the
+    action is applied (apply_action) to the current_state() of that rebuilt value."""
+    from mir import ok_exit_blocks, origins as _orig
+    prog = ctx.prog
+    vs = [lz.get() for lz in prog.lazy if lz.path == lz.root and lz.path.endswith("crdt::GroupCrdt::validate")]
+    ctx.floor("C33.3", "GroupCrdt::validate", len(vs), 1)
+    for b in vs:
+        heads = calls_to(b, "p2panda_auth::group::crdt::GroupCrdtInnerState::heads")
+        rs = calls_to(b, "p2panda_auth::traits::resolver::Resolver::process")
+        cmps = [c for c in sem_calls(b) if c.is_("core::cmp::PartialEq::ne", "core::cmp::PartialEq::eq")
+                and any(_orig(b, a).from_call("p2panda_auth::group::crdt::GroupCrdtInnerState::heads") for a in c.args)]
+        if not ctx.ob("C33.3", "heads/dependencies comparison and resolver run located", bool(heads and rs and cmps),
+                      "anchor-missing: heads()=%d Resolver::process=%d comparisons=%d" % (len(heads), len(rs), len(cmps)),
+                      site=b.loc(), trivial=True):
+            continue
+        oks = ok_exit_blocks(b)
+        rs_bbs = {c.bb for c in rs}
+        bad = []
+        for c in cmps:
+            lab = "true" if c.is_("core::cmp::PartialEq::ne") else "false"
+            for br in branches_on(b, c.result, c.done_bb):
+                e = br.edge(lab)
+                if e is None:
+                    continue
+                free = b.reachable(e[1], avoid=rs_bbs)
+                if any(o in free for o in oks):
+                    bad.append(c.loc())
+        ctx.ob("C33.3", "a concurrent operation is validated on the state rebuilt at its dependencies", not bad,
+               "GroupCrdt::validate can return Ok on the `heads() != dependencies` edge (comparison at %s) without running the "
+               "resolver on the graph pruned to the operation's predecessors: the action is then judged against states that "
+               "were resolved together with operations concurrent to it" % bad, site=b.loc(), key="C33.3:validated-on-rebuilt-state")
+        ap = calls_to(b, "p2panda_auth::group::crdt::apply_action")
+        for a in ap:
+            names = {n.rsplit("::", 1)[-1] for n in _orig(b, a.args[0]).call_names()}
+            ctx.ob("C33.3", "apply_action judges the action on current_state() of the validation state", "current_state" in names,
+                   "apply_action(state <- %s)" % sorted(names), site=a.loc(), key="C33.3:apply-on-current-state")
+
+
 def run(ctx):
     ctx.explanation = (
         "Decides: (2) exhaustive decision tables of state::{add, remove, modify, promote, demote} (modify inlined into "
         "promote/demote; map look-ups and is_member/is_manager as opaque pure predicates): every Ok row must have "
         "established members.get(actor) is Some, is_member and is_manager (remove also accepts actor == removed); (1) "
-        "GroupCrdt::process: every state-changing call is guarded by the Ok edge of validation. NOT decided: the state "
-        "the operation is validated against (dependencies / resolver), i.e. behaviour over histories.")
+        "GroupCrdt::process: every state-changing call is guarded by the Ok edge of validation; GroupCrdt::validate: on the "
+        "`heads() != dependencies` edge every Ok return lies behind the resolver run on the pruned graph and apply_action "
+        "judges the action on current_state() of that value. NOT decided: that the pruned graph / the resolver compute the "
+        "state at the dependencies correctly over histories.")
     ctx.guarded(lambda: rule_transitions(ctx), "C33")
     ctx.guarded(lambda: rule_process(ctx), "C33")
+    ctx.guarded(lambda: rule_validate_state(ctx), "C33")
 
 
 MANIFEST = {
